@@ -19,6 +19,26 @@ class Ctx:
         return Reporter(prop, self.tier, self.seed, level)
 
 
+def _sweep_stale_scratch(max_age_s=3 * 3600):
+    """Remove scratch directories left behind by killed children of earlier runs (older than 3 hours)."""
+    import shutil
+    import tempfile
+    import time
+    for root in {"/dev/shm", tempfile.gettempdir()}:
+        try:
+            names = os.listdir(root)
+        except OSError:
+            continue
+        for n in names:
+            if n.startswith(("j2m-sim-", "j2m-c06-", "j2m-c16-", "j2m-c17", "j2m-mutant-", "j2m-seeded-")):
+                p = os.path.join(root, n)
+                try:
+                    if time.time() - os.stat(p).st_mtime > max_age_s:
+                        shutil.rmtree(p, ignore_errors=True)
+                except OSError:
+                    pass
+
+
 def main(argv=None):
     if os.environ.get("PYTHONHASHSEED") != "0":
         # harness-side dict/set order must not depend on the hash seed: re-exec under a fixed one
@@ -30,6 +50,8 @@ def main(argv=None):
     ap.add_argument("--replay")
     ap.add_argument("--scale", type=float, default=float(os.environ.get("VERIF_SCALE", "1")))
     a = ap.parse_args(argv)
+    _sweep_stale_scratch()
+    sys.setrecursionlimit(20000)  # harness side only (deep-document workloads are copied / shrunk recursively)
     from sim import pool, seeds
     ctx = Ctx(a.tier, seeds.root_seed(), pool.jobs_default(), a.scale)
     prop = a.prop.upper()
